@@ -222,3 +222,77 @@ Proof.
   rewrite (req_inc_loop_sound olds news iolds inews Hl fs (b_new - b_old) inc b_old); auto; [|lia].
   apply aff_at_compat. ring.
 Qed.
+
+(* ================================================================================================================ *)
+(* refutations of the unguarded staircase statement on the faithful model (witnesses = known findings) *)
+Close Scope Q_scope.
+Open Scope Z_scope.
+
+Definition q (n : Z) (d : positive) : Q := Qmake n d.
+Definition wit_rep : src :=
+  SSeq [SHold 1 [VPlain (q 3 2)]; SRep 3 (SSeq [SHold 1 [VPlain (q 3 2)]; SHold 1 [VPlain (q 5 2)]])].
+Definition wit_rep_inner : src :=
+  SIter 0 2 1 (SRep 2 (SIter 0 3 1 (SHold 1 [VAff 0 [q 1 1; q 1 4]]))).
+Definition wit_zero : src :=
+  SIter 3 5 2 (SSeq [SHold 1 [VPlain (q (-1) 2)]; SHold 2 [VAff 0 [q 0 1]]; SHold 3 [VPlain (q (-1) 2)]]).
+Definition wit_depth : src :=
+  SIter 0 2 1 (SSeq [SHold 1 [VAff 0 [q 1 2]; VPlain (q 1 2)];
+                     SIter 0 2 1 (SHold 1 [VAff 0 [q 1 2]; VAff 0 [q 0 1; q 1 2]])]).
+Definition wit_good : src :=
+  SIter 1 7 2 (SSeq [SHold 1 [VAff (q 1 4) [q 1 2]; VPlain (q 3 2)];
+                     SIter 5 0 (-2) (SRep 2 (SHold (q 1 2) [VAff 0 [q 1 4; q (-1) 1]; VAff 1 [q 0 1; q 1 8]]))]).
+
+Lemma refute_with : forall g1 g2 channels s fuel h t,
+  src_wf channels s = true ->
+  (g1 = true -> guard_C17_zero_factor s = true) -> (g2 = true -> guard_C17_repetition_entry_state s = true) ->
+  pipeline fuel channels s = Ok (h, t) ->
+  plays h (fst (staircase s)) = false ->
+  ~ C17_staircase_unguarded g1 g2.
+Proof.
+  intros g1 g2 channels s fuel h t Hwf H1 H2 Hp Hpl Hall.
+  destruct (Hall channels s fuel h t Hwf H1 H2 Hp) as [Hc _]. rewrite Hpl in Hc. discriminate.
+Qed.
+
+Lemma staircase_refuted_repetition : ~ C17_staircase_unguarded true false.
+Proof.
+  eapply (refute_with true false 1%nat wit_rep 200%positive).
+  - vm_compute; reflexivity.
+  - intros _; vm_compute; reflexivity.
+  - intros H; discriminate H.
+  - vm_compute; reflexivity.
+  - vm_compute; reflexivity.
+Qed.
+
+Lemma staircase_refuted_repetition_inner : ~ C17_staircase_unguarded true false.
+Proof.
+  eapply (refute_with true false 1%nat wit_rep_inner 400%positive).
+  - vm_compute; reflexivity.
+  - intros _; vm_compute; reflexivity.
+  - intros H; discriminate H.
+  - vm_compute; reflexivity.
+  - vm_compute; reflexivity.
+Qed.
+
+Lemma staircase_refuted_zero_factor : ~ C17_staircase_unguarded false true.
+Proof.
+  eapply (refute_with false true 1%nat wit_zero 200%positive).
+  - vm_compute; reflexivity.
+  - intros H; discriminate H.
+  - intros _; vm_compute; reflexivity.
+  - vm_compute; reflexivity.
+  - vm_compute; reflexivity.
+Qed.
+
+Lemma compile_refuted_key_depth :
+  src_wf 2 wit_depth = true /\ guard_C17_zero_factor wit_depth = true /\
+  guard_C17_repetition_entry_state wit_depth = true /\ forall fuel, pipeline fuel 2 wit_depth = Err EAssert.
+Proof. repeat split; try (vm_compute; reflexivity). Qed.
+
+Lemma statement_nonvacuous :
+  src_wf 2 wit_good = true /\ guard_C17_zero_factor wit_good = true /\ guard_C17_repetition_entry_state wit_good = true /\
+  exists h t, pipeline 1000 2 wit_good = Ok (h, t) /\ length h = 21%nat /\
+              plays h (fst (staircase wit_good)) = true /\ Qeq_bool t (snd (staircase wit_good)) = true.
+Proof.
+  split; [vm_compute; reflexivity|]. split; [vm_compute; reflexivity|]. split; [vm_compute; reflexivity|].
+  eexists; eexists. split; [vm_compute; reflexivity|]. repeat split; vm_compute; reflexivity.
+Qed.
